@@ -408,10 +408,10 @@ def _mk(fmt, ntraj, specs, refspec, has_ref, like_ref, t0, export, align_mode, c
 
 
 st_case = st.builds(
-    _mk, st.sampled_from(["tum", "tum", "euroc", "kitti"]), st.integers(1, 3), st.lists(st_spec, min_size=3, max_size=3), st_spec, st.booleans(),
+    _mk, st.sampled_from(["tum", "tum", "euroc", "kitti"]), st.sampled_from([1, 2, 2, 3]), st.lists(st_spec, min_size=3, max_size=3), st_spec, st.booleans(),
     st.booleans(), st.sampled_from([10.0, 1.5e9]), st.sampled_from(["tum", "tum", "kitti"]), st.sampled_from(["none", "none", "align", "origin"]),
     st.booleans(), st.sampled_from([-1, -1, 3, 6]), st.booleans(), st.booleans(), st.sampled_from([None, None, 2, 7, 100]),
-    st.sampled_from([None, None, [0.5, 5.0], [0.0, 0.0], [5.0, 20.0]]), st.sampled_from([0.0, 0.0, 0.25, -1.5]), st.one_of(st.none(), st_tf),
+    st.sampled_from([None, None, [0.5, 5.0], [0.0, 0.0], [5.0, 20.0], [1.0, 400.0], [3.0, 400.0]]), st.sampled_from([0.0, 0.0, 0.25, -1.5]), st.one_of(st.none(), st_tf),
     st.sampled_from([None, None, "xy", "xz", "yz"]))
 
 
@@ -421,5 +421,5 @@ def _nt(case):
 
 
 SUBS = [
-    Sub("traj", sub_traj, st_case, 700, 25000, nontrivial=_nt, shards_quick=8),
+    Sub("traj", sub_traj, st_case, 1600, 40000, nontrivial=_nt, shards_quick=8),
 ]
